@@ -995,6 +995,9 @@ func (c *Check) globalWriters() {
 		if f.Name() == "init" || strings.HasPrefix(f.Name(), "init#") || f.Synthetic != "" {
 			continue
 		}
+		if onlyRunsDuringInit(p, f, 0) {
+			continue // a piece of a package initialiser: runs before any other goroutine exists
+		}
 		if strings.Contains(fnPkgPath(f), "/proftest") || strings.Contains(fnPkgPath(f), "/third_party") {
 			continue
 		}
@@ -1266,6 +1269,64 @@ func onceAtCallers(p *Program, f *ssa.Function, depth int) bool {
 			continue
 		}
 		if !onceAtCallers(p, g, depth+1) {
+			return false
+		}
+	}
+	return true
+}
+
+// onlyRunsDuringInit: f (or the function literal's enclosing function) is only ever called,
+// never used as a value, from package initialisers or from functions of which the same holds.
+func onlyRunsDuringInit(p *Program, f *ssa.Function, depth int) bool {
+	if f.Name() == "init" || strings.HasPrefix(f.Name(), "init#") {
+		return true
+	}
+	if depth > 3 {
+		return false
+	}
+	if par := f.Parent(); par != nil {
+		// a closure: it runs during init when it is only called inside its init-time parent
+		if !onlyRunsDuringInit(p, par, depth+1) {
+			return false
+		}
+		for _, b := range par.Blocks {
+			for _, ins := range b.Instrs {
+				mc, ok := ins.(*ssa.MakeClosure)
+				if !ok || mc.Fn != ssa.Value(f) || mc.Referrers() == nil {
+					continue
+				}
+				for _, r := range *mc.Referrers() {
+					switch x := r.(type) {
+					case *ssa.DebugRef:
+					case ssa.CallInstruction:
+						if x.Common().Value != ssa.Value(mc) {
+							return false
+						}
+						if _, isGo := r.(*ssa.Go); isGo {
+							return false
+						}
+					case *ssa.Store:
+						// kept in a local variable and called from there
+						if _, isAlloc := x.Addr.(*ssa.Alloc); !isAlloc {
+							return false
+						}
+					default:
+						return false
+					}
+				}
+			}
+		}
+		return true
+	}
+	calls, asValue := directCallSites(p, f)
+	if asValue || len(calls) == 0 {
+		return false
+	}
+	for _, call := range calls {
+		if _, isGo := call.(*ssa.Go); isGo {
+			return false
+		}
+		if !onlyRunsDuringInit(p, call.Parent(), depth+1) {
 			return false
 		}
 	}
